@@ -286,7 +286,7 @@ def e_span(run, repo, max_states):
         for pi, perm in enumerate(perms):
             # the conditions the span is asked for: every one of them (unit, temperature, pressure, conditions given
             # per species) must reach every state energy - the state energies are named by all they were given
-            variants = (0, 1, 2) if nstates <= 5 else (pi % 3,)
+            variants = (0, 1, 2) if nstates <= 3 else (pi % 3,)
             for variant in variants:
                 ranks = {}
                 # a state energy taken under other conditions than the ones asked for has the place of that state in
@@ -570,4 +570,30 @@ MUTANTS = [
                 "            node['G'] = G[-1]\n"
                 '        # Get indices for TDI and TDTS')]},
 ]
-EQUIV = []
+EQUIV = [
+    # the harmless twins of two mutants above: R folded into a COPY of the factors; T named in the signature and handed
+    # on in both branches
+    {'name': 'R folded into a local copy of the factors',
+     'edits': [(P_, '        GoRT = np.zeros(shape=(len(self.reactions), len(x_values)))\n',
+                '        GoRT = np.zeros(shape=(len(self.reactions), len(x_values)))\n'
+                '        norm_factors = np.array(self.norm_factors, dtype=float)\n'
+                '        if G_units is not None:\n'
+                '            norm_factors /= c.R(\'{}/K\'.format(G_units))\n'),
+               (P_, 'zip(self.reactions, self.norm_factors)):\n            for j, x in enumerate(x_values):',
+                'zip(self.reactions, norm_factors)):\n            for j, x in enumerate(x_values):'),
+               (P_, "                    GoRT[i, j] *= c.R('{}/K'.format(G_units)) * kwargs['T']",
+                "                    GoRT[i, j] *= kwargs['T']")]},
+    {'name': 'network span names T and hands it on with and without units',
+     'edits': [(N_, '    def get_E_span(self, path, units=None, **kwargs):',
+                '    def get_E_span(self, path, units=None, T=298.15, **kwargs):'),
+               (N_, "                                       method_name='get_GoRT',\n"
+                '                                       **kwargs))',
+                "                                       method_name='get_GoRT',\n"
+                '                                       T=T,\n'
+                '                                       **kwargs))'),
+               (N_, '                                       units=units,\n'
+                '                                       **kwargs))',
+                '                                       units=units,\n'
+                '                                       T=T,\n'
+                '                                       **kwargs))')]},
+]
